@@ -98,6 +98,17 @@ theorem applyBatch_marker {env : Env} {s s' : State} {txs : List Tx} {fb : Heade
   rw [hco]
   exact cnsFold_markerCoin hc htx hk hng hsep
 
+/-- every transaction of an accepted batch passed the covenant-weight guard of `loadRelevantCoins` (fix for F19) -/
+theorem applyBatch_covWeightsFit {env : Env} {s s' : State} {txs : List Tx} {fb : Header}
+    (h : applyBatch env s txs fb = .ok s') {tx : Tx} (htx : tx ∈ txs) : tx.covWeightsFit = true := by
+  obtain ⟨rel, ns, next, hrel, _⟩ := FaucetL.applyBatch_ok h
+  unfold loadRelevantCoins at hrel
+  split at hrel
+  · cases hrel
+  · rename_i hall
+    simp only [Bool.not_eq_true, Bool.not_eq_false', List.all_eq_true, Bool.and_eq_true] at hall
+    exact (hall tx htx).2
+
 /-! ### a concrete run: faucet batch, a second batch, a block -/
 
 namespace Witness
